@@ -31,7 +31,9 @@ META = dict(
     claimed=True,
     technique='effect analysis (argument mutation) of the detector/metadata API '
               'and calc_*; dominance / path-condition check of the reseeding call; '
-              'canonical-form equality of the coordinate hand-off',
+              'canonical-form equality of the coordinate hand-off; return-shape '
+              'agreement of make_subset_data with its return_selection flag on '
+              'every path',
     level_text='Static: D1 holds for all inputs (no store reaches storage owned by '
                'an argument); D2/D3 are the structural conditions under which '
                'selecting pixels commutes with the forward calculation at the '
